@@ -124,7 +124,7 @@ CLAIMS["C18"] = dict(
          "Engine recording what json.loads and each pydantic leaf validator answer. C18_preserves: for every engine whose leaf answers are faithful "
          "(decidable text predicates: true/false literals, integer text, ISO dates and timestamps, CIDR text), every JSON value and every nesting of "
          "JSON text, the cast value denotes the input (inductive Denotes relation); C18_scalars_kept, C18_shape, C18_bool_only_literals, "
-         "C18_timestamp_needs_shape. Each run sends the engine table for every reachable string, compares the cast structurally and evaluates "
+         "C18_timestamp_needs_shape, C18_timestamp_keeps_zone, C18_timestamp_zone_agrees. Each run sends the engine table for every reachable string, compares the cast structurally and evaluates "
          "faithfulness of every conversion the engine made.",
     note=TRUST + "pydantic-core leaf validators and json.loads are the engine (parameter of the theorem, checked leaf by leaf); lax but numerically faithful integer spellings are accepted; one known finding (D30b).")
 
